@@ -270,25 +270,30 @@ def check_table(ctx, kind, z, table, queries, case, f11=False, fine=False):
             ctx.oracle(case, "never_nan" if fine else "finite", kind, {"fine_step": True, "dim": 2} if fine else {},
                        {"query": [i, v], "value": val, "row": row})
             continue
-        # correspondence (either diagonal for 2-D)
-        if m is not None:
-            cands = [float(wire.unnum(m[kk][n])) for kk in ("values", "values_t", "values_f")]
-            if not any(abs(val - x) <= tol(x) for x in cands):
-                ctx.corr(case, "interp: model value (either diagonal) = parameter recovered from the solved row",
-                         {"pair": kind + "." + z, "query": [i, v], "class": c, "impl": val, "model": cands, "row": row})
         # oracle
         e = tab.expect(i, abs(v)) if not f11 else ("eq", abs(float(table[z][0][table["io"].index(-i if -i in table["io"] else i)])))
         trig = {"abs_io_not_increasing": True, "dim": 1} if f11 else ({"fine_step": True, "dim": 2} if fine else {})
         clause = {"knot": "knot_exact", "line_x": "linear_on_grid_line", "line_y": "linear_on_grid_line",
                   "cell": "range_in_cell"}.get(c, "clamped_outside")
+        bad = False
         if e[0] == "eq":
             if abs(val - e[1]) > tol(e[1]):
+                bad = True
                 ctx.oracle(case, clause, kind, trig, {"pair": kind + "." + z, "query": [i, v], "class": c, "impl": val,
                                                        "property": e[1], "row": {k: row[k] for k in ("vin", "vout", "iin", "iout")}})
         else:
             if val < e[1] - tol(e[1]) or val > e[2] + tol(e[2]):
+                bad = True
                 ctx.oracle(case, "range_in_cell" if c == "cell" else clause, kind, trig,
                            {"pair": kind + "." + z, "query": [i, v], "class": c, "impl": val, "range": [e[1], e[2]]})
+        # correspondence (either diagonal for 2-D).  In the fine-step stream (open finding F31: Qhull loses grid points and
+        # scipy returns values the rectangular-grid model cannot mirror) a point on which the property's own statement
+        # already fails is reported through the oracle only.
+        if m is not None and not (fine and bad):
+            cands = [float(wire.unnum(m[kk][n])) for kk in ("values", "values_t", "values_f")]
+            if not any(abs(val - x) <= tol(x) for x in cands):
+                ctx.corr(case, "interp: model value (either diagonal) = parameter recovered from the solved row",
+                         {"pair": kind + "." + z, "query": [i, v], "class": c, "impl": val, "model": cands, "row": row})
     return len(usable)
 
 
@@ -310,6 +315,14 @@ def check_sign(ctx, kind, z, table, queries, case):
         ctx.case(key=[kind, z, repr(table), i, -v], nontrivial=True)
         if a is None or b is None or abs(a - b) > tol(a):
             ctx.oracle(case, "sign_insensitive", kind, {}, {"pair": kind + "." + z, "query": [i, v], "pos": a, "neg": b})
+        else:
+            # the looked-up value also enters Power / Loss / Efficiency: those cells must not depend on the rail's sign either
+            for col in ("pwr", "loss", "eff"):
+                x, y = row[col], nrow[col]
+                if abs(x - y) > 1e-7 * max(abs(x), abs(y)) + 1e-9:
+                    ctx.oracle(case, "sign_insensitive", kind, {"col": col},
+                               {"pair": kind + "." + z, "query": [i, v], "col": col, "pos": x, "neg": y})
+                    break
 
 
 def const_twin(desc):
